@@ -310,17 +310,21 @@ func newGRPCBroker(s streamer, tls *tls.Config, unixSocketCfg UnixSocketConfig, 
 func (b *GRPCBroker) Accept(id uint32) (net.Listener, error) {
 	if b.muxer.Enabled() {
 		p := b.getServerStream(id)
+
+		// Register the listener before starting to answer knocks, so that a
+		// knock that is already waiting cannot be acknowledged before there
+		// is a listener to hand the stream to.
+		ln, err := b.muxer.Listener(id, p.doneCh)
+		if err != nil {
+			return nil, err
+		}
+
 		go func() {
 			err := b.listenForKnocks(id)
 			if err != nil {
 				log.Printf("[ERR]: error listening for knocks, id: %d, error: %s", id, err)
 			}
 		}()
-
-		ln, err := b.muxer.Listener(id, p.doneCh)
-		if err != nil {
-			return nil, err
-		}
 
 		ln = &rmListener{
 			Listener: ln,
